@@ -18,6 +18,11 @@ def Work.setSpec (w : Work Db Err L1) (s : Nat) : Work Db Err L1 := { w with js 
 def SpecBlind {α : Type} (st : Stage Db Env Err L1 α) : Prop :=
   ∀ env w s, st env (Work.setSpec w s) = ((st env w).1, Work.setSpec (st env w).2 s)
 
+/-- the two stages that can run while the journal's spec is still stale - `tx_against_state` and,
+for a validation error, `post_execution.end` - do not look at `journaled_state.spec` -/
+def HSpecBlind (h : Handler Db Env Err Pre L1 G LS Act FR ER) : Prop :=
+  SpecBlind h.txAgainstState ∧ ∀ e, SpecBlind (h.endHook (.error e))
+
 /-- equal up to the journal's `spec` field and the precompile field -/
 def Sim (c1 c2 : Ctx Db Env Err Pre L1) : Prop :=
   c1.db = c2.db ∧ c1.env = c2.env ∧ eraseSpec c1.js = eraseSpec c2.js ∧ c1.error = c2.error ∧ c1.l1 = c2.l1
@@ -184,10 +189,10 @@ theorem finish_sim (fuel : Nat) (g : G) {c1 c2 : Ctx Db Env Err Pre L1} (hs : Si
       rw [hc.1, hc.2]
       exact ⟨rfl, simP_clear_withWork hc _⟩
 
-theorem transact_sim (hb : SpecBlind h.txAgainstState) (fuel : Nat) {c1 c2 : Ctx Db Env Err Pre L1}
+theorem transact_sim (hb : HSpecBlind h) (fuel : Nat) {c1 c2 : Ctx Db Env Err Pre L1}
     (hs : Sim c1 c2) : RelOpt Sim (transact h fuel c1) (transact h fuel c2) := by
   unfold transact
-  have hp := preverifyInner_sim h hb hs
+  have hp := preverifyInner_sim h hb.1 hs
   revert hp
   cases preverifyInner h c1 with | mk r1 d1 =>
   cases preverifyInner h c2 with | mk r2 d2 =>
@@ -196,7 +201,11 @@ theorem transact_sim (hb : SpecBlind h.txAgainstState) (fuel : Nat) {c1 c2 : Ctx
   simp only at hr hd
   subst hr
   cases r1 with
-  | error e => exact ⟨rfl, sim_clear hd⟩
+  | error e =>
+    have he := stage_sim (hb.2 e) d1.env (sim_work hd)
+    simp only [RelOpt]
+    rw [show d2.env = d1.env from hd.2.1.symm]
+    exact ⟨he.1, sim_clear (sim_withWork hd.2.1 he.2)⟩
   | ok g => exact finish_sim h fuel g hd
 
 theorem transactPreverified_sim (fuel : Nat) {c1 c2 : Ctx Db Env Err Pre L1} (hs : Sim c1 c2) :
@@ -215,7 +224,7 @@ theorem preverifyTransaction_sim (hb : SpecBlind h.txAgainstState) {c1 c2 : Ctx 
   have hp := preverifyInner_sim h hb hs
   exact ⟨by show Except.map _ _ = Except.map _ _; rw [hp.1], sim_clear hp.2⟩
 
-theorem transactCommit_sim (commit : Db → EvmState → Db) (hb : SpecBlind h.txAgainstState) (fuel : Nat)
+theorem transactCommit_sim (commit : Db → EvmState → Db) (hb : HSpecBlind h) (fuel : Nat)
     {c1 c2 : Ctx Db Env Err Pre L1} (hs : Sim c1 c2) :
     RelOpt Sim (transactCommit h commit fuel c1) (transactCommit h commit fuel c2) := by
   unfold transactCommit
@@ -256,7 +265,7 @@ theorem relOpt_map {R R' : Type} (f : R → R') {o1 o2 : Option (R × Ctx Db Env
     | some p2 => exact ⟨by show f p1.1 = f p2.1; rw [hr.1], hr.2⟩
 
 /-- every entry point: similar contexts give the same result (or both diverge) and similar contexts -/
-theorem call_sim (commit : Db → EvmState → Db) (hb : SpecBlind h.txAgainstState) (e : EntryPoint) (fuel : Nat)
+theorem call_sim (commit : Db → EvmState → Db) (hb : HSpecBlind h) (e : EntryPoint) (fuel : Nat)
     {c1 c2 : Ctx Db Env Err Pre L1} (hs : Sim c1 c2) :
     RelOpt Sim (call h commit e fuel c1) (call h commit e fuel c2) := by
   cases e with
@@ -264,7 +273,7 @@ theorem call_sim (commit : Db → EvmState → Db) (hb : SpecBlind h.txAgainstSt
   | transactPreverified => exact relOpt_map _ (transactPreverified_sim h fuel hs)
   | transactCommit => exact relOpt_map _ (transactCommit_sim h commit hb fuel hs)
   | preverify =>
-    have hp := preverifyTransaction_sim h hb hs
+    have hp := preverifyTransaction_sim h hb.1 hs
     exact ⟨by simp only [hp.1], hp.2⟩
 
 /-! ### what the context looks like after a call -/
@@ -419,7 +428,7 @@ theorem prepare_sim_build (op : Op Db Env Err Pre L1 G LS Act FR ER) {c : Ctx Db
 
 theorem sequence_eq (commit : Db → EvmState → Db) (pre0 : Pre) :
     ∀ (ops : List (Op Db Env Err Pre L1 G LS Act FR ER)) (c : Ctx Db Env Err Pre L1),
-      Clean c → (∀ op ∈ ops, SpecBlind op.h.txAgainstState) →
+      Clean c → (∀ op ∈ ops, HSpecBlind op.h) →
       (runOne commit ops c).map (fun p => (p.1, p.2.db)) = runFresh commit pre0 ops c.db := by
   intro ops
   induction ops with
